@@ -499,3 +499,22 @@ Fixpoint paths_fit (prefix : Z) (n : node) : bool :=
                         paths_fit (prefix + 1 + lenZ (node_name k)) k) ks
   | LinkNode _ _ _ => true
   end.
+
+(* ---- cgnsdiff -t<tol> (outside the default options): compare_doubles, cgnsdiff.c:123-131 -------------------------------- *)
+From Flocq Require Import Core.Zaux Core.Raux IEEE754.BinarySingleNaN IEEE754.Binary IEEE754.Bits.
+Definition Hp64 : FLX.Prec_gt_0 53 := eq_refl.
+Definition Hm64 : Prec_lt_emax 53 1024 := eq_refl.
+Definition dbl (u : Z) : BinarySingleNaN.binary_float 53 1024 := B2BSN 53 1024 (b64_of_bits u).
+(* fabs(d1[n] - d2[n]) > tol   on the bit patterns of three doubles *)
+Definition exceeds_tol64 (d1 d2 tol : Z) : bool :=
+  match BinarySingleNaN.Bcompare
+          (BinarySingleNaN.Babs (@BinarySingleNaN.Bminus 53 1024 Hp64 Hm64 mode_NE (dbl d1) (dbl d2))) (dbl tol) with
+  | Some Gt => true
+  | _ => false
+  end.
+(* for (n = 0; n < cnt; n++) if (fabs(d1[n] - d2[n]) > tol) return 1;  return 0; *)
+Fixpoint compare_doubles (tol : Z) (d1 d2 : list Z) : bool :=
+  match d1, d2 with
+  | x :: r1, y :: r2 => if exceeds_tol64 x y tol then true else compare_doubles tol r1 r2
+  | _, _ => false
+  end.
